@@ -43,6 +43,12 @@ ASSUMPTIONS = [
     'valid in the device cannot matter and a step is comparable with a fresh device in the same state',
     'request fields wider than the codec fields are truncated by the codec (ids 16 bit, offset/count 8 bit); the theorems assume '
     'record ids < 65536',
+    'whether the reservation id obtained by a renewal is used for the FOLLOWING chunks and records is not demanded by this '
+    'property (a Get answered C5h must be followed by the Reserve of the same store and the read must complete - both hold '
+    'either way: the dropped id costs one rejected request and one more Reserve per partial read, within the chunk budget); it is '
+    'C13\'s clause "always use the most recently obtained reservation" (C13:data_helper:stale-reservation-after-renewal, '
+    'fixes/C13-2).  The model has the flag (Variant.staleRes), the check probes it on the real code and compares every request '
+    'including its reservation field; every theorem of Props/C11.lean holds for both values',
 ]
 TRUSTED = ['harness/translate/loops11.py', 'harness/sim/dev11.py', 'harness/props/c11.py (generators, oracle)']
 
@@ -492,8 +498,31 @@ def gen_device(rng, nrepo=None, ndev=None):
                     res0=(rng.choice([0, 1, 0xFFFE, 0xFFFF, rng.randrange(0x10000)]), rng.choice([0, 0xFFFF, rng.randrange(0x10000)])))
 
 
+def probe_stale():
+    """'1' = a reservation id obtained after a cancellation is dropped (the following chunk / the following
+    record is requested with the cancelled id again), '0' = it is handed on; None = neither consistently."""
+    rec = dev11.make_record(0x21, 0x14, bytes(bytearray(range(1, 26))))     # header + 20 + 5
+    rec2 = dev11.make_record(0x22, 0x14, bytes(bytearray(range(1, 9))))
+    seen = set()
+    for store in 'rd':
+        for op in (['get', store, 0, None], ['list', store]):
+            _, device = run_real(make_dev(repo=[rec, rec2], dev=[rec, rec2], limit=255, cancels=[2]), op)
+            log = device.log
+            if not (len(log) > 5 and log[2][3] == b'\xC5' and log[3][1] == dev11.CMD_RESERVE and log[3][3][:1] == b'\x00'):
+                return None
+            new = bytes(log[3][3][1:3])
+            later = [q for _, cmd, q, _ in log[5:] if cmd in (dev11.CMD_GET_SDR, dev11.CMD_GET_DEVICE_SDR)]
+            if op[0] == 'list':
+                later = [q for q in later if q[2] | q[3] << 8 == 0x22]         # the following record
+            if not later:
+                return None
+            seen.update('0' if bytes(q[0:2]) == new else '1' for q in later)
+    return seen.pop() if len(seen) == 1 else None
+
+
 def probe_variant():
-    """The variant the real code behaves like: '<fallThrough 0|1><repo renews with r|d><device renews with r|d>'."""
+    """The variant the real code behaves like: '<fallThrough 0|1><repo renews with r|d><device renews with r|d>'
+    (+ probe_stale: '<renewed id dropped 1|0>')."""
     rec = dev11.make_record(0x21, 0x14, bytes(bytearray(range(1, 26))))
     d = make_dev(repo=[rec], dev=[rec], limit=16)
     out, _ = run_real(d, ['get', 'r', 0, None])
@@ -508,20 +537,23 @@ def probe_variant():
         ren[store] = None
         if len(log) > 3 and log[2][3] == b'\xC5' and log[3][1] == dev11.CMD_RESERVE:
             ren[store] = {dev11.NETFN_STORAGE: 'r', dev11.NETFN_SENSOR: 'd'}.get(log[3][0])
-    return ft, ren['r'], ren['d']
+    return ft, ren['r'], ren['d'], probe_stale()
 
 
 def _variant(ctx):
-    ft, rr, dr = probe_variant()
+    ft, rr, dr, st = probe_variant()
     read = None
     if _gen is not None:
-        read = '%d%s%s' % (1 if _gen['fallThrough'] else 0, _gen['repoRenew'][0], _gen['devRenew'][0])
-    probed = None if None in (ft, rr, dr) else ft + rr + dr
+        read = '%d%s%s%d' % (1 if _gen['fallThrough'] else 0, _gen['repoRenew'][0], _gen['devRenew'][0],
+                             1 if _gen['staleRes'] else 0)
+    probed = None if None in (ft, rr, dr, st) else ft + rr + dr + st
     ctx.extra['variant'] = {'read_from_source': read, 'probed_on_real_code': probed,
-                            'repaired': '0rd', 'pinned_816fdee': '1dd'}
+                            'format': '<0xCA branch falls through><repository renews with r|d><device store renews with r|d>'
+                                      '<renewed reservation id dropped (C13)>',
+                            'intended': '0rd0', 'repaired_for_C11_only': '0rd1', 'pinned_816fdee': '1dd1'}
     if read is not None and probed is not None and read != probed:
         ctx.disagree('variant: source reading vs behaviour', {}, read, probed)
-    return probed or read or '0rd'
+    return probed or read or '0rd0'
 
 
 def _live_constants():
